@@ -117,3 +117,15 @@ pub fn tier_is_thorough() -> bool {
 pub fn seed() -> u64 {
 	std::env::var("VERIF_SEED").ok().and_then(|s| s.parse::<i64>().ok()).map(|v| v as u64).unwrap_or(1)
 }
+
+/// r2d2 (the SQLite pool of the MBTiles reader / writer) gives up after 30 s of waiting for a connection; on an overloaded
+/// machine that is the machine's doing: such an attempt is repeated a few times before its error is taken at face value.
+pub fn retry_env<T>(mut f: impl FnMut() -> anyhow::Result<T>) -> anyhow::Result<T> {
+	for _ in 0..4 {
+		match f() {
+			Err(e) if format!("{e:#}").contains("timed out waiting for connection") => std::thread::sleep(std::time::Duration::from_secs(3)),
+			r => return r,
+		}
+	}
+	f()
+}
